@@ -1,7 +1,6 @@
 package blockc
 
 import (
-	"bytes"
 	"errors"
 	"fmt"
 	"math/rand/v2"
@@ -241,7 +240,7 @@ func judgeCtor(m *mon.M, sp *ctorSpec, key []byte, r *rand.Rand) {
 func TestC12(t *testing.T) {
 	m := mon.New(t, "C12")
 	defer m.Done()
-	m.Rule("streams: per cipher, case i fixes the key length deterministically (Blowfish 1+(i mod 56); Twofish 16/24/32 by i mod 3; CAST5/TEA/XTEA 16), draws the key (70% random, else zero/ones/repeated byte/short period) and 4 blocks (3 random + one of zero/ones/single-bit/single-zero-bit); per block the monitor judges Encrypt vs oracle (separate + in place), Decrypt(Encrypt(x))=x (separate + in place) and Decrypt(x) vs oracle. Blowfish salted: NewSaltedCipher(key 1..72+, salt) then j rounds of ExpandKey(key)/ExpandKey(salt) as bcrypt does, vs the EksBlowfish ref (verdict for 16-byte salts; other salt lengths: inversion only, cyclic reading observed). TEA: rounds from {0,2,4,8,16,32,64,128,even<=400} (ref with rounds/2 cycles), odd rounds must be refused, negative even rounds: either refusal or an invertible cipher. Enumerated parts: every constructor x every key length 0..64 (Blowfish 0..130), nil and empty key; every Blowfish key length 1..56 x 3 keys. distinct = (cipher, key length, key kind[, rounds class / salt length]); non-trivial = reached an oracle comparison or a constructor verdict")
+	m.Rule("streams: per cipher, case i fixes the key length deterministically (Blowfish 1+(i mod 56); Twofish 16/24/32 by i mod 3; CAST5/TEA/XTEA 16), draws the key (70% random, else zero/ones/repeated byte/short period) and 4 blocks (3 random + one of zero/ones/single-bit/single-zero-bit); per block the monitor judges Encrypt vs oracle (separate + in place), Decrypt(Encrypt(x))=x (separate + in place) and Decrypt(x) vs oracle. Blowfish salted: NewSaltedCipher(key 1..72+, salt) then j rounds of ExpandKey(key)/ExpandKey(salt) as bcrypt does, vs the EksBlowfish ref (16-byte salts as in the bcrypt paper; other salt lengths 1..64 with OpenBSD's cyclic salt reading, separate verdict key). TEA: rounds from {0,2,4,8,16,32,64,128,even<=400} (ref with rounds/2 cycles), odd rounds must be refused, negative even rounds: either refusal or an invertible cipher. Enumerated parts: every constructor x every key length 0..64 (Blowfish 0..130), nil and empty key; every Blowfish key length 1..56 x 3 keys. distinct = (cipher, key length, key kind[, rounds class / salt length]); non-trivial = reached an oracle comparison or a constructor verdict")
 	m.Assume("Blowfish ref derives P/S from pi (Machin, math/big), self-tested on Schneier's vectors, on bcrypt hashes and against libgcrypt (1..72-byte keys) and nettle (8..56); Twofish ref built from the paper's 4-bit tables, self-tested on the paper's KATs and against nettle (16/24/32) and libgcrypt (16/32); TEA/XTEA refs transcribed from the reports, big-endian words as in the published byte-level vectors; CAST5 judged by agreement of libgcrypt and nettle")
 	m.Assume("a C witness that abstains (libgcrypt/nettle refuse Blowfish weak keys) is skipped; conflicting oracles give Inconclusive")
 	m.Note("RC2 (pkcs12/internal/rc2) is not importable from the harness: covered only through pkcs12.Decode of openssl-made PBE-SHA1-RC2-40 files (Decrypt, 5-byte keys, 40 effective bits = the only configuration reachable in this module); direct Encrypt/Decrypt and other effective key lengths need a verif re-export hook")
@@ -288,7 +287,7 @@ func TestC12(t *testing.T) {
 		}
 		slen := 16
 		if i%5 == 4 {
-			slen = mon.Pick(r, []int{1, 2, 3, 4, 7, 8, 9, 12, 15, 17, 20, 24, 32, 33})
+			slen = mon.Pick(r, []int{1, 2, 3, 4, 7, 8, 9, 12, 15, 17, 20, 24, 32, 33, 64})
 		}
 		key, kind := genKey(r, klen)
 		salt := mon.Bytes(r, slen)
@@ -320,18 +319,14 @@ func TestC12(t *testing.T) {
 				m.Count("blowfish_salted_keys_over_56", 1)
 			}
 		} else {
-			// salt lengths other than 128 bits are not defined by the
-			// reference: only inversion is demanded; the cyclic reading is observed.
-			o := &oracle{}
+			// salt lengths other than 128 bits are not in the bcrypt paper; the
+			// only published semantics is OpenBSD's Blowfish_expandstate (used
+			// with a 64-byte salt by bcrypt_pbkdf), which reads the salt
+			// cyclically byte by byte — the reading the ref implements. The
+			// verdict key is separate from the 16-byte one.
+			o := blowfishOracle(st, nil)
 			for _, b := range genBlocks(r, 8) {
-				judgeBlock(m, "blowfish-salted", "", c, o, b, wit)
-				got := make([]byte, 8)
-				c.Encrypt(got, b)
-				if bytes.Equal(got, st.Encrypt(b)) {
-					m.Count("blowfish_salted_oddsalt_cyclic_reading_matches", 1)
-				} else {
-					m.Count("blowfish_salted_oddsalt_cyclic_reading_differs", 1)
-				}
+				judgeBlock(m, "blowfish-salted", "salt-length-not-16", c, o, b, wit)
 			}
 			m.Count("blowfish_salted_oddsalt_keys", 1)
 		}
